@@ -230,6 +230,44 @@ func payload(n int, salt byte) []byte {
 	return p
 }
 
+// shapedPayloads are T-PDUs whose own headers carry length fields: consistent with the buffer, shorter (link-layer padding,
+// trailing octets), longer (a cut packet), zero; plus every value of the first octet in front of such fields.
+func shapedPayloads() [][]byte {
+	var out [][]byte
+	be16 := func(b []byte, v int) { b[0], b[1] = byte(v>>8), byte(v) }
+	for _, n := range []int{20, 28, 40, 45, 60, 64, 100, 576, 1400, 1500} {
+		for _, tl := range []int{n, n - 1, n - 5, n / 2, 20, 21, 0, n + 1, 0xffff} {
+			ip4 := payload(n, 0x5a)
+			ip4[0] = 0x45
+			if tl >= 0 {
+				be16(ip4[2:], tl)
+			}
+			out = append(out, ip4)
+			if n >= 40 {
+				ip6 := payload(n, 0xa5)
+				ip6[0] = 0x60
+				be16(ip6[4:], max(tl-40, 0))
+				out = append(out, ip6)
+			}
+		}
+		// Ethernet frame whose destination MAC starts 45:00:00:1c / 60:00:00:00:00:08, and an inner G-PDU with a short length
+		eth := payload(n, 0x11)
+		copy(eth, []byte{0x45, 0x00, 0x00, 0x1c, 0x00, 0x08})
+		out = append(out, eth)
+		gpdu := payload(n, 0x22)
+		copy(gpdu, []byte{0x34, 0xff, 0x00, 0x08})
+		out = append(out, gpdu)
+	}
+	for first := 0; first < 256; first++ {
+		b := payload(64, byte(first))
+		b[0] = byte(first)
+		be16(b[2:], 24)
+		be16(b[4:], 8)
+		out = append(out, b)
+	}
+	return out
+}
+
 func safeWrite(f func() error) (err error) {
 	defer func() {
 		if p := recover(); p != nil {
@@ -259,6 +297,7 @@ func writePacket(t *testing.T) {
 	// Outer Header Creation descriptions that ask for a GTP-U/UDP/IPv4 header: plain, with the N19 / N6 / LL-SSM indications of
 	// octet 6 (flags, not encapsulations), and together with the IPv6 bit
 	descs := []uint16{0x0100, 0x0101, 0x0102, 0x0104, 0x0300}
+	var shaped []byte // when set: the payload of the next packet (its length is l)
 	one := func(t vcore.Failer, teid uint32, qfi, l int) {
 		desc := descs[(qfi+1+l)%len(descs)]
 		if desc != 0x0100 {
@@ -277,6 +316,9 @@ func writePacket(t *testing.T) {
 			}
 		}
 		pl := payload(l, byte(qfi))
+		if shaped != nil {
+			pl = shaped
+		}
 		c := Case{WithExt: qfi >= 0, QFI: uint8(max(qfi, 0)), TEID: teid, Payload: pl}
 		account(c)
 		vcore.E.Class("through_WritePacket")
@@ -315,6 +357,17 @@ func writePacket(t *testing.T) {
 			}
 		}
 	}
+	// payloads that are packets: what the data plane buffers is a T-PDU - an IPv4 or IPv6 datagram, an Ethernet frame, an
+	// unstructured blob, a G-PDU of an inner tunnel - and it goes out as handed up, whatever its own header says about its
+	// length: IP length fields equal to, below and above the buffer's length, every first octet, trailing octets
+	for _, sp := range shapedPayloads() {
+		for _, qfi := range []int{-1, 9, 41} {
+			shaped = sp
+			vcore.E.Class("through_WritePacket:payload_with_a_packet_header_of_its_own")
+			one(t, 0x1000+uint32(len(sp)), qfi, len(sp))
+		}
+	}
+	shaped = nil
 	// back to back: when a FAR stops buffering, its packets are re-injected one right after the other; each datagram must still be
 	// its own packet (2-12 packets written without reading in between, then read and matched by their TEIDs)
 	vcore.Check(t, vcore.N(300, 4000), func(rt *rapid.T) {
